@@ -33,7 +33,7 @@ CLAIMS = {
          "Trusted: go/ssa + VTA call graph; jsonpath.GetDoc is the only way a processor reads properties.",
          "DESIGN.md §4 C02"),
  "C12": ("shape rule over every Processor.Process and embedded-driver lookup (go/types AST), private-copy analysis shared with C01, captured-variable lockset (go/cfg)",
-         "Decides structural necessary conditions for ALL loop programs and schedules: (M1) every step that may stand between a mark and a jump, and every lookup of the embedded driver, forwards a signal traveler first, unchanged, on the channel ordinary rows use; (M2) set, increment and the emitting jump write only into travelers whose current element and marks are private copies; (M3) the variables shared by the jump queue's goroutines are accessed under one mutex; (M4) a jump queues only signals addressed to its own mark and every path of its signal branch forwards the signal downstream; (M5) the second stage of every lookup step tests IsSignal or builds travelers only with constructors that copy the Signal field. Does not decide the termination-detection protocol of JumpMark under all interleavings (a model-checking question), nor loss/duplication during shutdown.",
+         "Decides structural necessary conditions for ALL loop programs and schedules: (M1) every step that may stand between a mark and a jump, and every lookup of the embedded driver, forwards a signal traveler first, unchanged, on the channel ordinary rows use; (M2) set, increment and the emitting jump write only into travelers whose current element and marks are private copies; (M3) the variables shared by the jump queue's goroutines are accessed under one mutex; (M4) a jump queues only signals addressed to its own mark and every path of its signal branch forwards the signal downstream; (M5) the second stage of every lookup step tests IsSignal or builds travelers only with constructors that copy the Signal field; (M6) the jump queue is an unbounded buffer: its intake goroutine contains no channel communication, waiting primitive or loop on state outside the goroutine, and no queue goroutine blocks while holding a mutex. Does not decide the termination-detection protocol of JumpMark under all interleavings (a model-checking question), nor loss/duplication during shutdown.",
          "Trusted: go/types, go/cfg.",
          "DESIGN.md §4 C12"),
  "C17": ("must-lockset over go/cfg for fields of shared objects; captured-variable race rule for goroutine-starting functions (go/types AST + go/cfg)",
